@@ -31,6 +31,17 @@ func interpolateV1(v1, v2, t float64) float64 {
 }
 
 func interpolateVerts(v1, v2 vector3.Float64, v1v, v2v, cutoff float64) vector3.Float64 {
+	// A lattice edge is shared by up to four cells (and by neighbouring storage
+	// blocks), and the case table names its two ends in either order. Always
+	// interpolate from the lower end: started from the other end the result
+	// differs in the last bits (1 - 0.99995 is not 0.00005), and a vertex that
+	// sits on a rounding step of LookupOrAdd / the final weld was then put into
+	// two different bins by different cells - a duplicated vertex, i.e. a crack
+	// in the surface.
+	if v2.X() < v1.X() || v2.Y() < v1.Y() || v2.Z() < v1.Z() {
+		v1, v2 = v2, v1
+		v1v, v2v = v2v, v1v
+	}
 	t := interpolationValueFromCutoff(v1v, v2v, cutoff)
 	return v2.Sub(v1).Scale(t).Add(v1)
 }
